@@ -3,7 +3,6 @@ use std::io;
 use std::sync::Arc;
 use std::sync::atomic::Ordering;
 
-use codeq::OffsetSize;
 use codeq::error_context_ext::ErrorContextExt;
 use log::info;
 
@@ -224,6 +223,7 @@ impl<T: Types> RaftLog<T> {
         let mut closed = BTreeMap::new();
         let mut prev_end_offset = None;
         let mut last_log_id = None;
+        let newest_chunk_id = chunk_ids.last().copied();
 
         for chunk_id in chunk_ids.iter().copied() {
             // Only the last chunk(open chunk) needs to keep all log payload in
@@ -235,6 +235,19 @@ impl<T: Types> RaftLog<T> {
 
             let (chunk, records) = Chunk::open(config.clone(), chunk_id)?;
 
+            // A crash right after the newest chunk file was created, or before
+            // its first record (the state snapshot) was completely written,
+            // leaves a chunk without any record. It carries no information:
+            // remove it, so that a new open chunk that starts with a state
+            // snapshot is created at the same offset below.
+            if records.is_empty() && Some(chunk_id) == newest_chunk_id {
+                drop(chunk);
+                std::fs::remove_file(config.chunk_path(chunk_id))
+                    .context(|| format!("remove empty chunk {}", chunk_id))?;
+                prev_end_offset = Some(chunk_id.offset());
+                break;
+            }
+
             for (i, record) in records.into_iter().enumerate() {
                 let start = chunk.global_offsets[i];
                 let end = chunk.global_offsets[i + 1];
@@ -242,7 +255,7 @@ impl<T: Types> RaftLog<T> {
                 sm.apply(&record, chunk_id, seg)?;
             }
 
-            prev_end_offset = Some(chunk.last_segment().end().0);
+            prev_end_offset = Some(chunk.global_end());
             last_log_id = sm.log_state.last.clone();
 
             closed.insert(
